@@ -36,8 +36,8 @@ API Reference
 """
 
 import numpy as np
-from math import log
 from scipy.stats import *
+from math import log		# must follow the scipy.stats star import, which may also export a 'log'
 
 from stockpyl.optimization import golden_section_search
 from stockpyl.loss_functions import *
